@@ -20,7 +20,9 @@ RULE = ("join programs: exhaustive product base shape x joined-item shape x crit
         "foreign; same and different column names; both operand orders; plain, function-wrapped, negated, subquery operands; "
         "1-3 conjuncts) plus seeded random compositions; set operations of arity 1-4 on each side in chains of 1-3; all "
         "orders of conflict-handler calls (k<=4 from on_conflict(fields)/on_conflict()/do_nothing/do_update/where); RETURNING "
-        "term kinds x statement kinds; every one-shot call twice. non-trivial = the case has both valid and invalid "
+        "term kinds (single fields, constants, compound terms mixing target/joined/foreign tables) x statement kinds; every "
+        "one-shot call twice; each join verdict is taken after one of four pre-histories of the partial statement (none, "
+        "discarded sibling branches that joined the other tables, a render, a copy). non-trivial = the case has both valid and invalid "
         "neighbours in its family; distinct = case description")
 ASSUMPTIONS = [
     "reference verdict: a join criterion is invalid iff some Field in it (outside nested subqueries) is attached to a source "
